@@ -443,12 +443,16 @@ static void methods_space(void)
         CHECK(same, "stop-actions", "stop: the actions reaching the C layer differ (third timeout %d, given %d)", rec.stop.third.timeout, int_menu[(ti + 2) % NINT]);
       }
     // poll: the member and the free function
+    // (what the C layer reports is its business: the deadline event comes without having been asked for)
     for (int interests = 0; interests < 32; interests += 5) {
-      poll_events[0] = interests & 0x1f;
-      auto x = p.poll(interests, reproc::milliseconds(7));
-      check_ec(x.second, r, "process::poll");
-      if (r >= 0) CHECK(x.first == (interests & 0x1f), "poll-events", "process::poll: events %d vs %d", x.first, interests & 0x1f);
-      CHECK(rec.sources.size() == 1 && rec.sources[0].interests == interests && rec.timeout == 7, "method-arguments", "process::poll: interests/timeout not passed through");
+      static const int evs[7] = { 0, 1, 2, 8, 16, 18, 31 };
+      for (int ei = 0; ei < 7; ei++) {
+        poll_events[0] = evs[ei];
+        auto x = p.poll(interests, reproc::milliseconds(7));
+        check_ec(x.second, r, "process::poll");
+        if (r >= 0) CHECK(x.first == evs[ei], "poll-events", "process::poll(interests %d): the C layer reported events %d, the wrapper returned %d", interests, evs[ei], x.first);
+        CHECK(rec.sources.size() == 1 && rec.sources[0].interests == interests && rec.timeout == 7, "method-arguments", "process::poll: interests/timeout not passed through");
+      }
     }
     {
       reproc::event::source src[2] = { { reproc::process(), 3, 0x55 }, { reproc::process(), 9, 0x55 } };
